@@ -1209,3 +1209,133 @@ Proof.
   - rewrite Ho. unfold pend in Hq. rewrite Hs in Hq. rewrite Hq. reflexivity.
   - unfold pend. rewrite Hs'. exact Hp'.
 Qed.
+
+(* ------------------------------------------------------------------ 4. bye and expiry are final, for every continuation *)
+(* an id that was handed out and whose session ended stays dead *)
+Lemma dead_stepx q h o sid :
+  sid <= h_nextsid h -> get_sess h sid = None ->
+  get_sess (fst (stepx q h o)) sid = None /\ sid <= h_nextsid (fst (stepx q h o)).
+Proof.
+  intros Hle Hd. destruct (srel_stepx q sid h o) as [Hn Hb _]. split; [|lia].
+  destruct (opt_case (get_sess (fst (stepx q h o)) sid)) as [[s' Hs']|Hn']; [|exact Hn'].
+  destruct (Hb Hd s' Hs') as [[Hlt _] _]. lia.
+Qed.
+
+Theorem dead_runx q sid ops : forall h,
+  sid <= h_nextsid h -> get_sess h sid = None ->
+  get_sess (runx q h ops) sid = None /\ sid <= h_nextsid (runx q h ops).
+Proof.
+  induction ops as [|o r IH]; intros h Hle Hd; cbn [runx]; [auto|].
+  destruct (dead_stepx q h o sid Hle Hd) as [Hd1 Hle1]. now apply IH.
+Qed.
+
+Lemma nextsid_stepx q h o : h_nextsid h <= h_nextsid (fst (stepx q h o)).
+Proof. apply (s_next 0 _ _ (srel_stepx q 0 h o)). Qed.
+
+(* for EVERY continuation: the session is not live, is referenced nowhere (in particular it is a
+   member of no room), and a resume with its private id is refused and creates nothing *)
+Definition final (q : bool) (h : hub) (sid : N) : Prop :=
+  forall ops', let h2 := runx q h ops' in
+    get_sess h2 sid = None /\ unreferenced h2 sid /\
+    forall c cn, aget (h_conns h2) c = Some cn -> c_sess cn = None ->
+      let '(h3, outs) := step h2 (OHello c (HResume (IdPriv sid))) in
+      (outs = [ToConn c (SError E_no_such_session)] \/ outs = [ToConn c (SError E_too_many_requests)]) /\
+      h_sessions h3 = h_sessions h2.
+
+Theorem final_of_dead q h sid : Good h -> sid <= h_nextsid h -> get_sess h sid = None -> final q h sid.
+Proof.
+  intros G Hle Hd ops'. destruct (dead_runx q sid ops' h Hle Hd) as [Hd2 _].
+  destruct (good_runx q ops' h G) as [W2 _]. cbv zeta.
+  split; [exact Hd2|]. split; [now apply no_residue|].
+  intros c cn Hc Hcs. exact (resume_of_ended_session_refused _ c cn sid Hc Hcs Hd2).
+Qed.
+
+Lemma bye_closes h c cn sid :
+  aget (h_conns h) c = Some cn -> c_sess cn = Some sid -> get_sess (fst (step h (OBye c))) sid = None.
+Proof.
+  intros Hc Hcs. cbn [step]. rewrite Hc, Hcs. unfold send_conn. rewrite Hc. cbn [is_closing].
+  unfold close_conn. rewrite Hc, Hcs.
+  match goal with |- context [close_session ?hh sid] => destruct (close_session hh sid) as [h3 o3] eqn:E end.
+  cbn [fst]. rewrite (fst_eq _ _ _ E). apply close_session_gone.
+Qed.
+
+Theorem bye_is_final q h c cn sid :
+  Good h -> aget (h_conns h) c = Some cn -> c_sess cn = Some sid ->
+  final q (fst (stepx q h (OBye c))) sid.
+Proof.
+  intros G Hc Hcs. pose proof G as [W I]. destruct (wf_conns _ _ h W c cn sid Hc Hcs) as [s [Hs _]].
+  assert (Hle : sid <= h_nextsid h) by (apply (inv_ids h I); eexists; exact Hs).
+  apply final_of_dead; [now apply good_stepx| |].
+  - pose proof (nextsid_stepx q h (OBye c)). lia.
+  - apply (rel0_dead sid _ _ (stepx_after_step q sid h (OBye c))). eapply bye_closes; eauto.
+Qed.
+
+Lemma fold_close_gone sid l : forall h,
+  In sid l -> get_sess (fst (fold_sessions h l close_session)) sid = None.
+Proof.
+  induction l as [|x l IH]; intros h Hin; [destruct Hin|].
+  rewrite fold_sessions_cons. destruct (close_session h x) as [h1 o1] eqn:H1.
+  destruct (fold_sessions h1 l close_session) as [h2 o2] eqn:H2. cbn [fst]. rewrite (fst_eq _ _ _ H2).
+  destruct (in_dec N.eq_dec sid l) as [Hl|Hnl]; [now apply IH|].
+  destruct Hin as [->|Hin]; [|contradiction].
+  apply (rel0_dead sid h1); [apply rel0_fold_sessions; intros hh y; apply rel0_close_session|].
+  rewrite (fst_eq _ _ _ H1). apply close_session_gone.
+Qed.
+
+Lemma tick_closes_expired h sid secs :
+  In sid (h_expired h) -> 30 < secs -> get_sess (fst (step h (OTick secs))) sid = None.
+Proof.
+  intros Hin Hlt. cbn [step]. unfold do_tick.
+  destruct (30 <? secs) eqn:E; [|apply N.ltb_ge in E; lia].
+  destruct (fold_sessions h (h_expired h) close_session) as [h1 o1] eqn:H1.
+  assert (D1 : get_sess h1 sid = None) by (rewrite (fst_eq _ _ _ H1); now apply fold_close_gone).
+  match goal with |- context [let '(h2, o2) := ?X in _] => destruct X as [h2 o2] eqn:H2 end.
+  assert (R2 : rel0 sid h1 h2).
+  { destruct (10 <? secs); [|injection H2 as <- <-; apply rel0_refl].
+    rewrite (fst_eq _ _ _ H2). apply rel0_fold_sessions. intros hh y.
+    destruct (get_sess hh y) as [s|]; [|apply rel0_refl].
+    match goal with |- context [let '(h3, o3) := ?X in _] => destruct X as [h3 o3] eqn:H3 end.
+    assert (R3 : rel0 sid hh h3).
+    { destruct (s_conn s); [|injection H3 as <- <-; apply rel0_refl]. rewrite (fst_eq _ _ _ H3). apply rel0_send_conn. }
+    destruct (close_session h3 y) as [h4 o4] eqn:H4. cbn [fst]. rewrite (fst_eq _ _ _ H4).
+    eapply rel0_trans; [exact R3|apply rel0_close_session]. }
+  match goal with |- context [let '(h3, o3) := ?X in _] => destruct X as [h3 o3] eqn:H3 end.
+  assert (R3 : rel0 sid h2 h3).
+  { destruct (2 <? secs); [|injection H3 as <- <-; apply rel0_refl].
+    rewrite (fst_eq _ _ _ H3). apply rel0_fold_sessions. intros hh y. apply rel0_send_conn. }
+  cbn [fst]. apply (rel0_dead sid h2 h3 R3). apply (rel0_dead sid h1 h2 R2). exact D1.
+Qed.
+
+Theorem expiry_is_final q h sid secs :
+  Good h -> In sid (h_expired h) -> 30 < secs ->
+  final q (fst (stepx q h (OTick secs))) sid.
+Proof.
+  intros G Hin Hlt. pose proof G as [W I].
+  assert (Hle : sid <= h_nextsid h) by (apply (inv_ids h I); eapply wf_expired; eauto).
+  apply final_of_dead; [now apply good_stepx| |].
+  - pose proof (nextsid_stepx q h (OTick secs)). lia.
+  - apply (rel0_dead sid _ _ (stepx_after_step q sid h (OTick secs))). now apply tick_closes_expired.
+Qed.
+
+(* a session whose connection is cut is marked for expiry (so the tick above applies to it unless it resumes) *)
+Lemma drop_marks_expired h c cn sid :
+  WF h -> aget (h_conns h) c = Some cn -> c_sess cn = Some sid ->
+  In sid (h_expired (fst (step h (ODrop c)))) /\ disc (fst (step h (ODrop c))) sid.
+Proof.
+  intros W Hc Hcs. destruct (wf_conns _ _ h W c cn sid Hc Hcs) as [s [Hs _]].
+  cbn [step]. rewrite Hc, Hcs.
+  change (get_sess (set_conns h (adel (h_conns h) c)) sid) with (get_sess h sid). rewrite Hs. cbn [fst]. split.
+  - cbn [h_expired set_expired]. apply in_nadd_intro. now left.
+  - exists (sess_conn s None). split; [|reflexivity].
+    change (aget (aset (h_sessions h) sid (sess_conn s None)) sid = Some (sess_conn s None)). apply aget_aset_same.
+Qed.
+
+(* ------------------------------------------------------------------ the statements for run / qrun *)
+Corollary run_queue_over_segment sid ops h :
+  Inv h -> live h sid -> stays_disc false sid h ops ->
+  pend (run h ops) sid = pend h sid ++ appended false sid h ops.
+Proof. rewrite <- runx_run. apply queue_over_segment. Qed.
+Corollary qrun_queue_over_segment sid ops h :
+  Inv h -> live h sid -> stays_disc true sid h ops ->
+  pend (qrun h ops) sid = pend h sid ++ appended true sid h ops.
+Proof. rewrite <- runx_qrun. apply queue_over_segment. Qed.
